@@ -71,8 +71,10 @@ def make_assertion(kind, con):
     from shangrla.core.Audit import Assertion
     from shangrla.core.NonnegMean import NonnegMean
     kw = dict(test=NonnegMean.alpha_mart, estim=NonnegMean.fixed_alternative_mean)
-    if kind == "plur":
-        return Assertion.make_plurality_assertions(contest=con, winner=["W"], loser=["L"], **kw)["W v L"]
+    if kind == "plur":      # the pairwise assertions of a contest are built in one call
+        both = Assertion.make_plurality_assertions(contest=con, winner=["W"], loser=["L", "X"], **kw)
+        con._sibling = both["W v X"]
+        return both["W v L"]
     if kind.startswith("super"):
         return next(iter(Assertion.make_supermajority_assertion(contest=con, share_to_win=con.share_to_win, winner="W",
                                                                 loser=["L"], **kw).values()))
@@ -116,6 +118,7 @@ def make_contest(kind, style, audit_type, cards):
 
 def build_cards(kind, cards, rng):
     """CVR and MVR objects for a list of abstract cards (positions are sample-number ranks)"""
+    import numpy as np
     from shangrla.core.Audit import CVR
     cvrs, mvrs = [], []
     for k, c in enumerate(cards):
@@ -125,11 +128,12 @@ def build_cards(kind, cards, rng):
         if not c["ph"] and rng.random() < 0.4:
             votes["other"] = {"Z": 1}
         pooled = c["pool"] != "none"
-        cvrs.append(CVR(id=f"card{k}", votes=votes, phantom=c["ph"], tally_pool=(c["pool"] if pooled else
-                                                                              rng.choice([None, "Q"])),
-                        pool=pooled, sample_num=k + 1))
-        if c["ms"] == "u":
-            mvrs.append(CVR(id=f"card{k}", votes={}, phantom=True))
+        cvrs.append(CVR(id=f"card{k}", votes=votes, phantom=(rng.choice([True, np.bool_(True), 1]) if c["ph"] else
+                                                             rng.choice([False, False, 0])),
+                        tally_pool=(c["pool"] if pooled else rng.choice([None, "Q"])),
+                        pool=(rng.choice([True, np.bool_(True)]) if pooled else False), sample_num=k + 1))
+        if c["ms"] == "u":      # the flag is not always the literal True (numpy booleans from arrays, 1 from files)
+            mvrs.append(CVR(id=f"card{k}", votes={}, phantom=rng.choice([True, True, np.bool_(True), 1])))
         else:
             mv = {}
             if c["ms"] != "x":
@@ -179,8 +183,17 @@ def run_case(tid, kind, u, style, cards, thr, rng, polling=False):
     under = [k for k, c in enumerate(cards) if (not style) or c["cs"] != "x"]
     out = {}
     if not polling:
+        sib = getattr(con, "_sibling", None)
+        if sib is not None and rng.random() < 0.5:
+            # the documented route: every assertion of the contest gets its margin and its test's bound in one sweep
+            con.assertions = {"a": asn, "b": sib}
+            guard("set_margin_from_cvrs", lambda: Assertion.set_all_margins_from_cvrs(audit, {"con": con}, cvrs))
+            out["u_after_margins"] = rs(asn.test.u) if getattr(asn.test, "u", None) is not None else "exc"
+            con.assertions = {"a": asn}
+        else:
+            guard("set_margin_from_cvrs", lambda: asn.set_margin_from_cvrs(audit, cvrs))
+            out["u_after_margins"] = rs(asn.test.u) if getattr(asn.test, "u", None) is not None else "exc"
         asn.test = StubTest(len(cards))
-        guard("set_margin_from_cvrs", lambda: asn.set_margin_from_cvrs(audit, cvrs))
         out["margin"] = rs(asn.margin) if asn.margin is not None else "exc"
         if pooled:
             guard("set_tally_pool_means", lambda: asn.assorter.set_tally_pool_means(cvr_list=cvrs, use_style=style))
